@@ -6,6 +6,7 @@ Require Extraction.
 Require Import ExtrOcamlBasic.
 From Verif Require Import Base.Str Base.Lines Base.Outcome.
 From Verif Require Import Model.RuleId Model.Root Model.Renumber Model.Copyright Model.Patterns Model.ParseLine Model.Format Model.Update.
+From Verif Require Import Model.Passes Model.CmdLine Model.Parser Model.Assembler Model.Generate Regex.Re Regex.Equiv.
 From Verif Require Import Gen.Consts.
 Extraction Language OCaml.
 Extraction "model.ml"
@@ -20,4 +21,11 @@ Extraction "model.ml"
   ParseLine.parse_line ParseLine.all_pnames ParseLine.build_pair_map ParseLine.split_args
   Format.process_line Format.format_bytes Format.format_bytes2 Format.layout Format.format_eof Format.check_header
   Update.update_contents Update.read_current Update.unchanged Update.rx_match Update.locate
+  Passes.is_escaped Passes.escape_doublequotes Passes.use_hex_backslashes Passes.include_vt Passes.use_hex_escapes
+  Passes.find_group_body_end Passes.remove_group Passes.dont_use_flags Passes.remove_outermost Passes.final_passes
+  CmdLine.regexp_str CmdLine.compute_suffix CmdLine.trim_config CmdLine.evasion_for CmdLine.cmdtype_of
+  Parser.expand_definitions Parser.replace_suffixes Parser.string_from_lines Parser.lookup_file Parser.parse
+  Assembler.assemble Assembler.pre_simplify
+  Generate.generate Generate.parse_only Generate.to_parsed
+  Equiv.equivalent Equiv.included
   Consts.parse_uint_bits Consts.max_scan_token_size Consts.scan_limit_parser_parse Consts.scan_limit_assembler_assemble Consts.scan_limit_format_process_file Consts.scan_limit_renumber_process_yaml Consts.scan_limit_copyright_update_rules Consts.scan_limit_replace_suffixes Consts.scan_limit_remove_exclusions Consts.scan_limit_build_inclusion_line_map Consts.standard_header.
